@@ -326,7 +326,8 @@ def execute(case, L, *, sync=False, flav=None, susp=0, fault_kind="exc", cancel_
     list_snap, list_edited = {}, set()     # the caller's lists as handed over / those the harness edited itself
     if tool == "apply":
         rec.apply_args = ([Aw(rec, Item(1, p + 1, k)) for p, k in enumerate(data[0])],
-                          {f"k{p + 1}": Aw(rec, Item(2, p + 1, k)) for p, k in enumerate(data[1])})
+                          # keyword names a wrapper might want for itself must pass through like any other
+                          {("func", "self", "args", "kwargs", "function")[p]: Aw(rec, Item(2, p + 1, k)) for p, k in enumerate(data[1])})
     for i, keys in enumerate(data if tool not in ("iter", "apply", "sync") else [], start=1):
         fl = "iter" if sync else (src_flav[i - 1] if isinstance(src_flav, (list, tuple)) else src_flav)
         if tool == "await_each":
